@@ -128,7 +128,10 @@ theorem covN_ctorIdx (n : Node) (c : Cov) (h : covN n = .ok c) : c.mod.ctorIdx =
     · rw [covN_funcDef_other _ _ _ (fun nm a i h => hd ⟨nm, a, i, h⟩)] at h
       obtain ⟨cb, _, _, rfl⟩ := h; rfl
   case ifs =>
-    simp only [covN, bind_eq_ok, pure_eq_ok, Except.ok.injEq] at h
+    simp only [covN] at h
+    split at h
+    · simp only [pure_eq_ok, Except.ok.injEq] at h; subst h; rfl
+    simp only [bind_eq_ok, pure_eq_ok, Except.ok.injEq] at h
     obtain ⟨a, _, b, _, rfl⟩ := h; rfl
   case compound items =>
     cases items <;> simp only [covN, bind_eq_ok, pure_eq_ok, Except.ok.injEq] at h
@@ -200,7 +203,10 @@ theorem covN_untouched : (n : Node) → ∀ c, covN n = .ok c → c.up = 0 → c
     rw [covList_untouched l a.1 a.2 ha hi]
   | .while_ _ b | .doWhile _ b => by
     intro c h _ hi
-    simp only [covN, bind_eq_ok, pure_eq_ok, Except.ok.injEq] at h
+    simp only [covN] at h
+    split at h
+    · simp only [pure_eq_ok, Except.ok.injEq] at h; subst h; rfl
+    simp only [bind_eq_ok, pure_eq_ok, Except.ok.injEq] at h
     obtain ⟨a, ha, rfl⟩ := h
     rw [covBody_untouched b a.1 a.2 ha hi]
   | .for_ init cond next b => by
@@ -213,7 +219,10 @@ theorem covN_untouched : (n : Node) → ∀ c, covN n = .ok c → c.up = 0 → c
     · cases h; rfl
   | .ifs _ t f => by
     intro c h _ hi
-    simp only [covN, bind_eq_ok, pure_eq_ok, Except.ok.injEq] at h
+    simp only [covN] at h
+    split at h
+    · simp only [pure_eq_ok, Except.ok.injEq] at h; subst h; rfl
+    simp only [bind_eq_ok, pure_eq_ok, Except.ok.injEq] at h
     obtain ⟨a, ha, b, hb, rfl⟩ := h
     have hi : a.1 + b.1 = 0 := hi
     rw [covSlot_untouched t a.1 a.2 ha (by omega), covSlot_untouched f b.1 b.2 hb (by omega)]
